@@ -30,8 +30,7 @@ func c11Graphs() []c11Graph {
 		{"cycle-via-slot-content", map[string]string{"p.vuego": `<template include="a.vuego">` + inc("p.vuego") + `</template>`, "a.vuego": "<div><slot></slot></div>"}, true},
 		{"cycle-in-loop", map[string]string{"p.vuego": `<div v-for="x in items">` + inc("p.vuego") + `</div>`}, true},
 		{"cycle-in-vif", map[string]string{"p.vuego": `<div v-if="items">` + inc("p.vuego") + `</div>`}, true},
-		// shorthand tags are rewritten in the page DOM only: inside a component file the tag stays an ordinary element, so no cycle arises
-		{"component-tag-inside-component", map[string]string{"p.vuego": `<loop-er></loop-er>`, "components/LoopEr.vuego": `<loop-er></loop-er>`}, false},
+		{"cycle-through-component-tag", map[string]string{"p.vuego": `<loop-er></loop-er>`, "components/LoopEr.vuego": `<loop-er></loop-er>`}, true},
 		{"diamond-no-cycle", map[string]string{"p.vuego": inc("a.vuego") + inc("b.vuego"), "a.vuego": inc("c.vuego"), "b.vuego": inc("c.vuego"), "c.vuego": "<i>c</i>"}, false},
 		{"deep-chain-60", nil, false},
 		{"layout-cycle", map[string]string{"p.vuego": "---\nlayout: a\n---\n<p>x</p>", "layouts/a.vuego": "---\nlayout: b\n---\n<div v-html=\"content\"></div>", "layouts/b.vuego": "---\nlayout: a\n---\n<div v-html=\"content\"></div>"}, true},
